@@ -279,7 +279,13 @@ CONFIG["C08"] = {
     "explanation": "Proved (effect obligations decided on the AST of the real files, for every N and every history): each call that "
                    "draws from numpy's global generator inside a method of the grid / polytope / Voronoi classes is dominated in the "
                    "same function by np.random.seed(<integer literal>), and every seed is an integer literal -- so the generator state "
-                   "at a draw never depends on earlier constructions or on the caller's generator state. Bounded: bit-identity "
+                   "at a draw never depends on earlier constructions or on the caller's generator state. Proved over an abstract graph "
+                   "(symbolic node count): index permanence (Polytope._end_of_divison / _add_polytope_point and the history lemma, see "
+                   "C18), cache coherence (Polytope._get_attributes_array_sorted_by_index under the class invariant `cached count == node "
+                   "count => cached rows list every node once by strictly increasing index`: returns that order for both the hit and the "
+                   "miss path and re-establishes the invariant) and Polytope.get_nodes = the first N rows of the index order (all four "
+                   "N/projection variants; ValueError exactly when N exceeds the node count) -- with permanence this is the prefix claim "
+                   "for the polytope algorithms. Bounded: bit-identity "
                    "(sha256 of dtype/shape/bytes) of grids and all geometry getters across repeated construction, seeded random "
                    "histories, reseeding, fresh interpreters with different PYTHONHASHSEED, and the prefix property over "
                    "thousands of (N, M) pairs.",
@@ -287,7 +293,9 @@ CONFIG["C08"] = {
                      "(checked: every call site carries the obligation)", "ALLOW-LISTED: PositionVoronoi.__init__ draws unseeded -- "
                      "plotting-only class, not reachable from the geometry getters"],
     "assumptions": ["determinism of Qhull/LAPACK/CPython floats across processes is exercised by the bounded stage, not proved",
-                    "index permanence, cache coherence and the idempotent filter (DESIGN 6/C08 P2-P4) are covered by the bounded stage only"],
+                    "the idempotent in-place filter of HalfRotobjVoronoi._additional_points_per_cell (DESIGN 6/C08 P4) and the per-getter effect "
+                    "summaries (P5) are covered by the bounded stage only; that a strictly increasing index order over indices 0..n-1 puts index k "
+                    "in row k is the pigeonhole step, not discharged by the SMT solver (the bounded prefix comparison covers it)"],
 }
 CONFIG["C18"] = {
     "level": "other", "proof": True, "rtc": True, "rtc_timeout": 3000,
